@@ -49,5 +49,4 @@ Init4w == { <<None, None, None, None>>,
 InitAny == [Ports -> Slot]
 NotesBound3 == Len(notes) <= 3
 NotesBound4 == Len(notes) <= 4
-NotesBound5 == Len(notes) <= 5
 ====
